@@ -56,7 +56,7 @@ def std_alphabet_raw_id():
 
 def build_assertion(cred, *, rp_id="example.com", challenge=b"\x01" * 32, origin="https://example.com",
                     origin_list=None, flags=UP, counter=5, stored=4, require_uv=False, ext=None, faults=(),
-                    cd_extra=None, attachment=None, attested_aaguid=None):
+                    cd_extra=None, attachment=None, attested_aaguid=None, cd_kwargs=None):
     """returns (assertion fields, expectation) for the authentication ceremony with `faults` applied"""
     faults = set(faults)
     unknown = faults - set(AUTH_FAULTS)
@@ -68,7 +68,7 @@ def build_assertion(cred, *, rp_id="example.com", challenge=b"\x01" * 32, origin
     ad_rp = rp_id
     expected_origin = origin if origin_list is None else list(origin_list)
     kw = {}
-    cd_kwargs = {"extra": cd_extra} if cd_extra else {}
+    cd_kwargs = dict(cd_kwargs or {}, **({"extra": cd_extra} if cd_extra else {}))
     stored_key_alg = cred.alg
     if "A.type-create" in faults:
         typ = "webauthn.create"
